@@ -101,6 +101,9 @@ func Load(repoDir, verifDir string, patterns []string) (*Engine, error) {
 		uni[types.TypeString(t, nil)] = t
 	}
 	for _, fn := range repoFns {
+		if pp := FnPkg(fn).Pkg.Path(); strings.HasSuffix(pp, "/grammar") || strings.Contains(pp, "fhirtest") || strings.Contains(pp, "/stablerand") {
+			continue // generated ANTLR code and test-support packages: outside every property
+		}
 		for _, b := range fn.Blocks {
 			for _, in := range b.Instrs {
 				switch v := in.(type) {
@@ -137,6 +140,12 @@ func Load(repoDir, verifDir string, patterns []string) (*Engine, error) {
 			e.ErrGlobs = append(e.ErrGlobs, p.Members[n].(*ssa.Global))
 		}
 	}
+	// sorts every prelude file may mention
+	e.Sorts.SortOf(types.NewSlice(types.NewInterfaceType(nil, nil)))
+	e.Sorts.SortOf(types.NewSlice(types.Typ[types.Int]))
+	e.Sorts.SortOf(types.NewSlice(types.Typ[types.Bool]))
+	e.Sorts.SortOf(types.NewSlice(types.Typ[types.String]))
+	e.Sorts.SortOf(types.NewNamed(types.NewTypeName(0, types.NewPackage("time", "time"), "Time", nil), types.NewStruct(nil, nil), nil))
 	// contracts
 	pkgPathOf := func(dir string) string {
 		rel, _ := filepath.Rel(repoDir, dir)
@@ -188,6 +197,9 @@ func (e *Engine) LookupType(name string) types.Type {
 		return nil
 	}
 	pk, tn := name[:i], name[i+1:]
+	if full, ok := pkgAliases[pk]; ok {
+		pk = full
+	}
 	var found types.Type
 	var paths []string
 	for path := range e.SSAPkgs {
@@ -259,4 +271,12 @@ func FnPkg(fn *ssa.Function) *ssa.Package {
 		return FnPkg(fn.Parent())
 	}
 	return nil
+}
+
+// pkgAliases: import aliases used throughout /repo's sources, accepted in contracts.
+var pkgAliases = map[string]string{
+	"dtpb":  "datatypes_go_proto",
+	"bcrpb": "bundle_and_contained_resource_go_proto",
+	"cpb":   "codes_go_proto",
+	"ppb":   "patient_go_proto",
 }
